@@ -1,6 +1,7 @@
 import Hive.Props.C07
 import Hive.Proofs.SeqConcLift
 import Hive.Proofs.SeqConcAnswers
+import Hive.Proofs.SeqConcLive
 import Hive.Gen.C07_Skel
 /-!
 # C07 — concurrent callers on one `Sequence` object (protocol level)
@@ -204,6 +205,20 @@ theorem C07_concurrent_contiguous (s0 : St) (h0 : Seq.Inv s0) {o : Obj} (hobj : 
   rw [hn] at hl
   rw [← hl] at hc
   simpa [front_eq] using hc
+
+/-- **Progress (no reachable stuck configuration).**  In every reachable configuration of any pool on an existing
+object: unless everybody is finished (`Finished`: environments without further restarts, goroutines of another
+generation than the live object's, goroutines whose script is done), somebody can take a step — the mutex is the only
+thing a goroutine ever waits for, its holder is a live goroutine (`C07_concurrent_mutual_exclusion`) and every program
+point between `Lock` and `Unlock` has a successor, also after a failed store call, also on the exhaustion path (the
+deferred `Unlock` is reached on every return).  So no schedule of `Next` / `Release` callers, store errors, crashes and
+restarts hangs. -/
+theorem C07_concurrent_no_deadlock (s0 : St) (specs : List Spec) (h0 : s0.obj.isSome = true) {c : Cfg Shared Thread}
+    (hr : Reach sys (initSh s0, specs.map spawn) c) : ¬ Deadlock sys (Finished c.1.epoch) c :=
+  no_deadlock s0 specs h0 hr
+
+/-- The hypothesis is satisfiable (and needed: without an object a caller has nothing to call). -/
+example : (final Seq.init [.new 3, .next]).obj.isSome = true := by decide
 
 /-- The lock / store-call skeletons (regenerated from kvstore/sequence.go on every run) that the
 micro-steps of `Hive/Model/SeqConc.lean` were written against; in `update`: the store read, the cap of the
